@@ -15,7 +15,7 @@ import time
 
 from vf import report, backends
 from vf.rig import Rig
-from vf.world import Hang
+from vf.world import Hang, World
 
 PID = "C07"
 HALF = 15778476
@@ -712,6 +712,59 @@ def wire_items(tier):
     return items
 
 
+def dos_lines(item):
+    """the second listing format the client's parser chain knows (DOS `dir` lines, what a Windows server sends): every
+    well-formed line over the grid below comes back with exactly its name, type, size and time of day"""
+    import datetime
+    (year,) = item
+    part = report.Partial()
+    w = World()
+    try:
+        a = w.aioftp
+        c = a.Client()
+        names = ["file name.txt", "Documents", "a", "x  y", "1,024", "<DIR>", "PM", "05/01/2020", "-rw-r--r--"]
+        sizes = [0, 5, 1024, 1234567, 2 ** 40]
+        for month in range(1, 13):
+            for day in (1, 9, 28, 29, 30, 31):
+                try:
+                    datetime.date(year, month, day)
+                except ValueError:
+                    continue
+                for hour24 in range(24):
+                    for minute in (0, 7, 59):
+                        dt = datetime.datetime(year, month, day, hour24, minute)
+                        stamp = dt.strftime("%m/%d/%Y  %I:%M ") + ("AM" if hour24 < 12 else "PM")
+                        k = (month + day + hour24 + minute)
+                        name = names[k % len(names)]
+                        size = sizes[k % len(sizes)]
+                        for is_dir in (False, True):
+                            for grouped in (False, True):
+                                mid = "<DIR>" if is_dir else (f"{size:,}" if grouped else str(size))
+                                line = f"{stamp}    {mid:>14} {name}"
+                                part.evaluations += 1
+                                try:
+                                    path, info = c.parse_list_line(line.encode())
+                                except Exception as exc:  # noqa
+                                    path, info = None, {"error": repr(exc)}
+                                want = {"type": "dir" if is_dir else "file", "modify": dt.strftime("%Y%m%d%H%M%S")}
+                                if not is_dir:
+                                    want["size"] = str(size)
+                                got = {k_: info.get(k_) for k_ in want} if isinstance(info, dict) else info
+                                if path is None or str(path) != name or got != want:
+                                    part.violation({"kind": "dos-line-misread", "field": next((k_ for k_ in want if got.get(k_) != want[k_]), "name")},
+                                                   {"line": line, "got": [str(path), info], "want": [name, want]},
+                                                   replay={"dos": [year]})
+                                    if len(part.violations) > 5:
+                                        return part
+            part.states.add(report.fp(["dos", year, month]))
+        part.nontrivial.add(report.fp(["dos", year]))
+        part.transitions = part.evaluations
+        part.sample({"dos_year": year, "example": line}, limit=1)
+    finally:
+        w.close()
+    return part
+
+
 def run(tier, seed, t0):
     years = range(2023, 2026) if tier == "quick" else range(2023, 2029)
     ns = nows(years)
@@ -730,6 +783,7 @@ def run(tier, seed, t0):
                                               for victim in victims for k in range(1, 40 if tier == "quick" else 80, 2 if tier == "quick" else 1)]) \
         + report.pmap(dash_names, [(b, f) for b in ("memory", "pathio") for f in (False, True)]) \
         + report.pmap(refused_first, [("before-login",), ("relogin-pending",)]) \
+        + report.pmap(dos_lines, [(y,) for y in ((1999, 2024) if tier == "quick" else (1980, 1999, 2000, 2023, 2024, 2038))]) \
         + report.pmap(mode_bits, [(b, k) for b in ("pathio", "async") for k in ("file", "dir")]) \
         + report.pmap(cross_session, [(b, h) for b in ("memory", "pathio", "async")
                                       for h in ("delete-upload", "rename-into-place", "overwrite")])
@@ -762,7 +816,9 @@ def run(tier, seed, t0):
 def replay(path):
     data = json.loads(open(path).read())
     rp = data.get("replay") or {}
-    if "faulty" in rp:
+    if "dos" in rp:
+        part = dos_lines(tuple(rp["dos"]))
+    elif "faulty" in rp:
         part = faulty_listing(tuple(rp["faulty"]))
     elif "dash" in rp:
         part = dash_names(tuple(rp["dash"]))
